@@ -11,6 +11,8 @@ PolyglotBook::hash(): XOR-only accumulation, every piece of every list entry,
 each special constant governed by exactly the condition the format states."""
 import hashlib
 
+import re
+
 from facts import AnalysisBroken
 from prog import walk, kids, short
 from rules.atoms import cn, conj, facts_atoms, norm_atom, _unbool
@@ -60,10 +62,8 @@ def check(ctx):
              n.get('op') not in ('==', '!=', '<=', '>=') and cn(h, kids(n)[0]) == 'key' and n.get('op') != '^=']
     kd = [n for n in h.all_nodes() if n['k'] == 'VarDecl' and n.get('name') == 'key']
     rets = [n for n in h.all_nodes() if n['k'] == 'ReturnStmt']
-    ctx.ob('C18.R2.xor-only', 'hash', not other and len(kd) == 1 and const_of(strip_casts(kids(kd[0])[0])) == 0 and
-           len(rets) == 1 and cn(h, kids(rets[0])[0]) == 'key',
-           'the key starts at 0, is only ever changed by ^=, and is what hash() returns', site=h.loc())
-    ctx.floor('C18.R2.xors', len(xors), 7, 'key ^= sites')
+    # what the key is made of besides the pieces is decided per valuation by special_terms() below
+    ctx.floor('C18.R2.xors', len(xors), 3, 'key ^= sites')
 
     def is_sq_order():
         # a1 = 0, b1 = 1, ..., h8 = 63 (row-major from White's side), as in the specification's 8*row + file
@@ -153,7 +153,7 @@ def check(ctx):
         name = ('W_' if kp % 2 else 'B_') + KINDS[kp // 2]
         seq += v[pe[name]]
     # castling / e.p. / turn constants: identified through their use below
-    use = classify_specials(ctx, p, h, specials, ce)
+    use = special_terms(ctx, p, h, ce)
     if use is None:
         return
     seq += [use['W_OO'], use['W_OOO'], use['B_OO'], use['B_OOO']] + list(use['EP']) + [use['TURN']]
@@ -179,6 +179,135 @@ def guard_atoms_other(h, n, allowed_vars):
             continue
         out.append(a)
     return out
+
+
+def special_terms(ctx, p, h, ce):
+    """the XOR terms other than the piece terms, by evaluation: for every combination of side to move, castling rights and e.p.
+    situation the constants XORed into the key (effects of hash() under that valuation, constants evaluated by clang) are exactly:
+    one constant per right held, the constant of the e.p. file when the e.p. square is set and a pawn of the side to move
+    stands on a square it could capture from, and the turn constant when White is to move. The capturer test is compared by
+    value (which squares are looked at), so spelling it from the e.p. square's side or from the pawns' side is the same."""
+    from rules.cases import effects_under
+    from rules.norm import Norm, SYNONYMS
+    M64 = (1 << 64) - 1
+
+    def shift(bb, d):
+        # engine geometry: NORTH = +8, EAST = +1, with file wrap masked
+        fa, fh = 0x0101010101010101, 0x8080808080808080
+        if d == 7:
+            return ((bb & ~fa) << 7) & M64
+        if d == 9:
+            return ((bb & ~fh) << 9) & M64
+        if d == -7:
+            return (bb & ~fh) >> 7
+        if d == -9:
+            return (bb & ~fa) >> 9
+        raise ValueError(d)
+
+    def capture_from(side, ep):
+        b = 1 << ep
+        # squares from which a pawn of `side` attacks ep: the squares a pawn of the OTHER colour on ep would attack
+        return (shift(b, -7) | shift(b, -9)) if side == 0 else (shift(b, 7) | shift(b, 9))
+
+    def run(side, rights, ep, attacker):
+        nm = Norm(h, keep=('key',), env={'__targs__': True})
+        nm.synonyms = SYNONYMS
+        val = {'position.color()': side, 'position.castling_rights()': rights, 'position.enpassant_square()': ep}
+        if ep != 64:
+            mask = capture_from(side, ep)
+            own = 'position.pieces(%d,1)' % side
+            dirs = ('NORTHEAST', 'NORTHWEST') if side == 0 else ('SOUTHEAST', 'SOUTHWEST')
+            for key in ('(%d&%s)' % (mask, own), '(%s&%d)' % (own, mask),
+                        '(%d&(%s))' % (1 << ep, '|'.join(sorted('shift<%s>(%s)' % (d, own) for d in dirs))),
+                        '((%s)&%d)' % ('|'.join(sorted('shift<%s>(%s)' % (d, own) for d in dirs)), 1 << ep)):
+                val[('truthy', key, True)] = attacker
+                val[key] = 1 if attacker else 0
+        try:
+            eff = effects_under(h, kids(h.body), val, keep=('key',), loops='mark', nm=nm)
+        except AnalysisBroken as e:
+            m = re.search(r'depends on `\((\d+)&position\.pieces\((\d),(\d)\)\)`', str(e))
+            if m and ep != 64:
+                return ('wrong-capturers', int(m.group(1)), int(m.group(2)), int(m.group(3)))
+            if ep == 64 and 'depends on' in str(e) and ('square_bb(64)' in str(e) or 'pieces(' in str(e)):
+                return ('ep-branch-without-square', 0, 0, 0)
+            raise
+        terms = []
+        for e in eff:
+            m = re.fullmatch(r'\(key\^=(\d+)\)', e)
+            m2 = re.fullmatch(r'\(key\^=(\w+)(?:\[(\d+)\])?\)', e)
+            if m:
+                terms.append(int(m.group(1)))
+            elif m2 and (E + m2.group(1)) in p.vars:
+                v_ = p.val(E + m2.group(1))
+                terms.append(int(v_[int(m2.group(2))] if m2.group(2) is not None else v_))
+            elif e.startswith('(key'):
+                raise AnalysisBroken('C18: the key is changed by `%s`' % e[:120])
+        kd = [n for n in h.all_nodes() if n['k'] == 'VarDecl' and n.get('name') == 'key' and kids(n)]
+        if len(kd) != 1:
+            raise AnalysisBroken('C18: the key variable of hash() was not found')
+        nm2 = Norm(h)
+        nm2.val = val
+        init = nm2.s(kids(kd[0])[0])
+        if not init.isdigit():
+            raise AnalysisBroken('C18: the key starts from `%s`' % init[:120])
+        if int(init):
+            terms.append(int(init))
+        return sorted(terms)
+    rets = [n for n in h.all_nodes() if n['k'] == 'ReturnStmt']
+    if len(rets) != 1 or cn(h, kids(rets[0])[0]) != 'key':
+        raise AnalysisBroken('C18: hash() does not return its accumulated key')
+    names = ['W_OO', 'W_OOO', 'B_OO', 'B_OOO']
+    use = {}
+    for nme in names:
+        t = run(1, ce[nme], 64, False)
+        if isinstance(t, tuple) or len(t) != 1:
+            if not isinstance(t, tuple) and not t and len([n_ for n_ in h.all_nodes() if n_['k'] in ('ForStmt', 'CXXForRangeStmt', 'WhileStmt') and
+                                                           not [a_ for a_ in h.ancestors(n_) if a_['k'] in ('ForStmt', 'CXXForRangeStmt', 'WhileStmt')]]) > 1:
+                raise AnalysisBroken('C18: the castling terms are not XORed in straight-line code (a loop over a table?)')
+            ctx.ob('C18.R2.specials', 'hash', False, 'with only the right %s held and Black to move exactly one constant is XORed (found %s)' % (nme, t), site=h.loc())
+            return None
+        use[nme] = t[0]
+    t = run(0, 0, 64, False)
+    if isinstance(t, tuple) or len(t) != 1:
+        ctx.ob('C18.R2.specials', 'hash', False, 'with White to move and nothing else exactly the turn constant is XORed (found %s)' % (t,), site=h.loc())
+        return None
+    use['TURN'] = t[0]
+    eps = []
+    for fl in range(8):
+        t = run(1, 0, 16 + fl, True)
+        if isinstance(t, tuple):
+            ctx.ob('C18.R2.enpassant', 'hash', False,
+                   'the pawns that could capture on square %d are looked for on the squares %#x of colour %d (they stand on %#x, colour 1)'
+                   % (16 + fl, t[1], t[2], capture_from(1, 16 + fl)), site=h.loc())
+            return None
+        if len(t) != 1:
+            ctx.ob('C18.R2.enpassant', 'hash', False, 'with an e.p. square on file %d and a capturer exactly one constant is XORed (found %s)' % (fl, t), site=h.loc())
+            return None
+        eps.append(t[0])
+    use['EP'] = eps
+    bad = None
+    n_rows = 0
+    for side in (0, 1):
+        for rights in range(16):
+            for ep, att in [(64, False)] + [(e_, a_) for e_ in ((40, 44, 47) if side == 0 else (16, 20, 23)) for a_ in (False, True)]:
+                n_rows += 1
+                t = run(side, rights, ep, att)
+                want = sorted([use[n_] for n_ in names if rights & ce[n_]] + ([use['TURN']] if side == 0 else []) +
+                              ([eps[ep % 8]] if ep != 64 and att else []))
+                if t != want and bad is None:
+                    if isinstance(t, tuple) and t[0] == 'ep-branch-without-square':
+                        bad = 'side %d, no e.p. square: the e.p. term is still considered' % side
+                    elif isinstance(t, tuple):
+                        bad = 'side %d, e.p. square %d: capturers are looked for on squares %#x of colour %d, they stand on %#x of colour %d' % (
+                            side, ep, t[1], t[2], capture_from(side, ep), side)
+                    else:
+                        bad = 'side %d, rights %d, e.p. %s%s: XORs %d constants, expected %d' % (
+                            side, rights, ep if ep != 64 else 'none', ' with a capturer' if att else '', len(t), len(want))
+    ctx.ob('C18.R2.specials', 'hash', bad is None,
+           'over %d combinations of side, castling rights and e.p. situation the key receives one constant per right held, the e.p. '
+           'file constant exactly when a pawn of the side to move stands where it could capture, and the turn constant for White%s'
+           % (n_rows, '' if bad is None else ' — ' + bad), site=h.loc())
+    return use if bad is None else None
 
 
 def classify_specials(ctx, p, h, specials, ce):
